@@ -420,6 +420,17 @@ def run(analysis: Analysis, tier: str) -> RuleResult:
 
     lm = getstate_live_mutations(analysis)
     res.add("C07-R6", "sensor:Sensor.__getstate__ / a pickle save does not empty the live node's sleep state or hold queue", not lm, "mysensors/sensor.py", "only the copied instance dict is edited" if not lm else f"__getstate__ mutates objects shared with the live sensor ({lm[0]}): after every periodic save the node is no longer flagged as sleeping and its withheld replies are gone")
+    # ... and a periodic save does not replace the live Sensor objects (a re-load inside the save would reset the
+    # sleep state, hold queues and reboot flags of every node): the C12 save-path clause, shared
+    from . import c12, persist
+
+    sub = RuleResult(PROP)
+    persist.check_dispatch_shape(analysis)
+    for summ in common.pmap(analysis, c12.save_worker, [(e, (analysis.versions[-1], "serial", "sync")) for e in persist.EXTS]):
+        c12.analyse_save_rows(sub, summ)
+    for o in sub.obs:
+        if "does not modify the live state" in o.construct:
+            res.add("C07-R6", o.construct, o.ok, o.where, o.detail, o.witness)
     res.units = {"contexts": len(specs), "paths": sum(s["paths"] for s in sums), "sink_events_classified": total_sinks, "sink_sites": len(sites) + 1, "source_digest": analysis.p.digest()}
     res.not_decided = ["timing of the burst"]
     res.assumptions = ["INV-KEY-ID (C01-INV): sensors[k].sensor_id == k", "user code that calls Gateway.send() with hand-built strings is outside the rule (documented raw API)"]
